@@ -8,6 +8,8 @@
 From Coq Require Import List Arith Bool.
 From M Require Import Base Flat Multi Queue.
 From P Require Import MultiP.
+From M Require Features FeaturesSpec.
+From P Require FeaturesP.
 Import ListNotations.
 
 (* The invariant of all histories: registered models are distinct, own every helper the machine
@@ -179,6 +181,14 @@ Theorem C10_own_initial_once : forall states dflt adds w,
   NoDup (map fst w) -> NoDup (map fst (own_run states dflt adds w)).
 Proof. exact own_run_nodup. Qed.
 
+(* STATE FEATURES (Tags / Error / Volatile / Retry mixins, any order, Features.v of C19): the per-model bookkeeping
+   of the mixins — retry counters, volatile objects — belongs to the model: an event on model m leaves the
+   record (state, hooks, retry counters of every state) of every other model untouched. *)
+Theorem C10_features_per_model :
+  forall (c : Features.fcfg) (w : Features.world) (m : Features.fmodel) (e : Features.fevent) (m' : Features.fmodel),
+  m' <> m -> Features.w_m (FeaturesSpec.obs_world (Features.fstep c w m e)) m' = Features.w_m w m'.
+Proof. exact FeaturesP.fstep_other. Qed.
+
 (* The graph classes have no remove_model: model_graphs keeps the (integer) key of a removed model.
    No reference to the model is kept (the GC check of the harness passes); recorded as an observation. *)
 Theorem C10_removed_graph_key_refuted :
@@ -239,6 +249,7 @@ Print Assumptions C10_late_model.
 Print Assumptions C10_late_model_names.
 Print Assumptions C10_add_twice.
 Print Assumptions C10_copy.
+Print Assumptions C10_features_per_model.
 Print Assumptions C10_own_initial.
 Print Assumptions C10_own_initial_once.
 Print Assumptions C10_add_twice_list.
